@@ -146,6 +146,17 @@ fn render_group(
     let mut sub_pixmap = tiny_skia::Pixmap::new(ibbox.width(), ibbox.height())
         .log_none(|| log::warn!("Failed to allocate a group layer for: {:?}.", ibbox))?;
 
+    // `max_bbox` is relative to the canvas, while the layer has its own origin.
+    let ctx = &Context {
+        max_bbox: tiny_skia::IntRect::from_xywh(
+            ctx.max_bbox.x().saturating_sub(ibbox.x()),
+            ctx.max_bbox.y().saturating_sub(ibbox.y()),
+            ctx.max_bbox.width(),
+            ctx.max_bbox.height(),
+        )
+        .unwrap_or(ctx.max_bbox),
+    };
+
     render_nodes(group, ctx, transform, &mut sub_pixmap.as_mut());
 
     if !group.filters().is_empty() {
